@@ -1,6 +1,6 @@
 (* C11 — property theorems (statements only; proofs live in Proofs.v; vocabulary in Spec.v / Model.v). *)
 From Coq Require Import List NArith Bool.
-Require Import QV.C11.Model QV.C11.Spec QV.C11.Proofs QV.C11.Proofs_load QV.C11.Proofs_kill QV.C11.Guard QV.C11.Proofs_guard.
+Require Import QV.C11.Model QV.C11.Spec QV.C11.Proofs QV.C11.Proofs_load QV.C11.Proofs_kill QV.C11.Guard QV.C11.Proofs_guard QV.C11.Proofs_exact.
 Import ListNotations.
 Open Scope N_scope.
 
@@ -181,3 +181,30 @@ Theorem C11_history_tx_nonvacuous :
             (4 <= length (view (fst (run_events current b (disk_of tx_ex_store) tx_ex_cache tx_ex_history))))%nat.
 Proof. exact tx_history_nonvacuous. Qed.
 Print Assumptions C11_history_tx_nonvacuous.
+
+(* guard_C11_cycle IS EXACT inside guard_C11_dup_id: whenever it rejects an overwrite, the COMPLETED overwrite leaves a
+   listed identifier that does not load (a reference cycle through the buffered document the guard points at).  So
+   the guard excludes exactly the inputs on which the unchanged code violates the property (known finding
+   overwrite-creates-cycle), nothing more. *)
+Theorem C11_cycle_guard_exact : forall v b d c n,
+  safe v b = true -> wf d c -> all_load (view d) -> guard_C11_dup_id n = true ->
+  guard_C11_cycle d c (OOverwrite n) = false ->
+  ~ all_load (view (run (steps_of (plan_of v b d c (OOverwrite n))) d)).
+Proof. exact cycle_guard_exact. Qed.
+Print Assumptions C11_cycle_guard_exact.
+
+(* ... hence, inside guard_C11_dup_id, the buffer guard decides the outcome of the completed overwrite *)
+Theorem C11_tx_guard_exact_consistent : forall v b d c n,
+  safe v b = true -> wf d c -> all_load (view d) -> guard_C11_dup_id n = true ->
+  (guard_C11_tx d c (OOverwrite n) = true <->
+   all_load (view (run (steps_of (plan_of v b d c (OOverwrite n))) d))).
+Proof. exact tx_guard_exact_consistent. Qed.
+Print Assumptions C11_tx_guard_exact_consistent.
+
+(* the hypotheses of the exactness theorem are satisfiable (the witness of C11_cycle_refuted) *)
+Theorem C11_cycle_guard_exact_nonvacuous :
+  wf (disk_of cycle_store) cycle_cache /\ guard_C11_dup_id (Node 3 5 5 [Node 2 2 2 [Node 1 1 1 []]]) = true /\
+  guard_C11_cycle (disk_of cycle_store) cycle_cache cycle_op = false /\
+  guard_C11_tx (disk_of cycle_store) cycle_cache cycle_op = false.
+Proof. exact cycle_guard_exact_nonvacuous. Qed.
+Print Assumptions C11_cycle_guard_exact_nonvacuous.
